@@ -644,6 +644,12 @@ func WindowWhen[T, B any](boundary Observable[B]) func(Observable[T]) Observable
 
 			mu := xsync.MutexWithSpinlock{}
 
+			// One notification at a time: taking the current window and using it (sending a value to it,
+			// completing it, delivering its successor) is one step. Otherwise a boundary tick on another
+			// goroutine completes the window a value is about to be sent to, or opens a window after the
+			// source has closed the last one.
+			var muEmit sync.Mutex
+
 			flush := func(ctx context.Context, skipNew bool) {
 				// reset Observable even if no notification were sent
 				mu.Lock()
@@ -676,6 +682,9 @@ func WindowWhen[T, B any](boundary Observable[B]) func(Observable[T]) Observable
 					subscriberCtx,
 					NewObserverWithContext(
 						func(ctx context.Context, value T) {
+							muEmit.Lock()
+							defer muEmit.Unlock()
+
 							mu.Lock()
 
 							tmp := window
@@ -685,10 +694,16 @@ func WindowWhen[T, B any](boundary Observable[B]) func(Observable[T]) Observable
 							tmp.NextWithContext(ctx, value)
 						},
 						func(ctx context.Context, err error) {
+							muEmit.Lock()
+							defer muEmit.Unlock()
+
 							flush(ctx, true)
 							destination.ErrorWithContext(ctx, err)
 						},
 						func(ctx context.Context) {
+							muEmit.Lock()
+							defer muEmit.Unlock()
+
 							flush(ctx, true)
 							destination.CompleteWithContext(ctx)
 						},
@@ -701,13 +716,22 @@ func WindowWhen[T, B any](boundary Observable[B]) func(Observable[T]) Observable
 					subscriberCtx,
 					NewObserverWithContext(
 						func(ctx context.Context, value B) {
+							muEmit.Lock()
+							defer muEmit.Unlock()
+
 							flush(ctx, false)
 						},
 						func(ctx context.Context, err error) {
+							muEmit.Lock()
+							defer muEmit.Unlock()
+
 							flush(ctx, true)
 							destination.ErrorWithContext(ctx, err)
 						},
 						func(ctx context.Context) {
+							muEmit.Lock()
+							defer muEmit.Unlock()
+
 							flush(ctx, true)
 							destination.CompleteWithContext(ctx)
 						},
